@@ -126,6 +126,86 @@ def _mentions_expr(hay, needle):
     return False
 
 
+def _id_validated_problems(prog, fn, g, n, depth=0):
+    """Why the facts at node n do not establish "ID field decoded and its CRC good" ([] if they do).
+    Either directly (decode_sector_address_and_size succeeded on a buffer whose CRC was found good), or
+    through a helper that returns true only where that is established."""
+    ts = g.truths(n) or []
+    dec_ok = None
+    for atom, truth in ts:
+        a = strip_all(atom)
+        if truth and is_call(a) and "decode_sector_address" in notpl(a.get("q") or ""):
+            dec_ok = a
+    problems = []
+    if dec_ok is not None:
+        crc_bufs = _crc_ok_facts(fn, g, n)
+        idbuf = call_args(dec_ok)[0]
+        if not any(_mentions_expr(idbuf, b) or _mentions_expr(b, idbuf) for b in crc_bufs):
+            problems.append("no successful CRC check of the ID field (%s) dominates it" % show(idbuf))
+        return problems
+    if depth < 2:
+        for atom, truth in ts:
+            a = strip_all(atom)
+            if not (truth and a is not None and a.get("k") == "CallExpr"):
+                continue
+            for t in prog.call_targets(fn, a):
+                gt = Guards(t)
+                rets = [m for m in t.walk() if m.get("k") == "ReturnStmt" and m.get("c") and folded(m["c"][0]) != 0]
+                if rets and all(not _id_validated_problems(prog, t, gt, m, depth + 1) for m in rets):
+                    return []
+    return ["the ID decoder's success is not established"]
+
+
+def _iteration_states(fn, g, did, init, assigns):
+    """PathStates over (state at the start of this pass of the decoder loop, state now)."""
+    cached = getattr(fn, "_c06_iter_states", None)
+    if cached is not None:
+        return cached
+    loop_conds = set()
+    for n in fn.walk():
+        if n.get("k") == "WhileStmt":
+            # the outer decoder loop: contains assignments to state
+            if any(a[0]["i"] in set(x["i"] for x in walk(n)) for a in assigns):
+                c = n["c"][n["parts"]["cond"]]
+                loop_conds.add(strip(c)["i"])
+                loop_conds.add(c["i"])
+    svk = "d%s" % did
+
+    def elem_tf(n, t):
+        start, now = t
+        if n["i"] in loop_conds:
+            return (now, now)
+        if n.get("k") == "BinaryOperator" and n.get("op") == "=" and strip_all(n["c"][0]).get("d") == did:
+            v = folded(n["c"][1])
+            return (start, v if v is not None else "?")
+        return t
+
+    def edge_tf(facts_, t):
+        start, now = t
+        for k in facts_:
+            if k[0] == "S" and k[1] == svk and k[2] != "default":
+                if now not in ("?", k[2]):
+                    return None
+                now = k[2]
+                if start == "?":
+                    start = now
+            if k[0] == "C" and svk in (k[1], k[3]):
+                other = k[3] if k[1] == svk else k[1]
+                if other.startswith("#"):
+                    v = int(other[1:])
+                    if k[2] == "==":
+                        if now not in ("?", v):
+                            return None
+                        now = v
+                    elif k[2] == "!=" and now == v:
+                        return None
+        return (start, now)
+    ps = PathStates(fn, (init, init), elem_tf, edge_tf, guards=g)
+    ps.loop_conds = loop_conds
+    fn._c06_iter_states = ps
+    return ps
+
+
 def rule_crc_gating(prog, fixture=False):
     r = RuleResult("R-C06-1", "decoder typestate: record-wanted is entered only after the ID CRC and ID decode "
                    "succeeded; a sector is pushed only while record-wanted and with a good data CRC; each pass "
@@ -153,20 +233,7 @@ def rule_crc_gating(prog, fixture=False):
                 if v != REC:
                     continue
                 key = "%s::%s::enter-record-state" % (fn.relfile(), fn.qn)
-                ts = g.truths(n) or []
-                dec_ok = None
-                for atom, truth in ts:
-                    a = strip_all(atom)
-                    if truth and is_call(a) and "decode_sector_address" in notpl(a.get("q") or ""):
-                        dec_ok = a
-                crc_bufs = _crc_ok_facts(fn, g, n)
-                problems = []
-                if dec_ok is None:
-                    problems.append("the ID decoder's success is not established")
-                else:
-                    idbuf = call_args(dec_ok)[0]
-                    if not any(_mentions_expr(idbuf, b) or _mentions_expr(b, idbuf) for b in crc_bufs):
-                        problems.append("no successful CRC check of the ID field (%s) dominates it" % show(idbuf))
+                problems = _id_validated_problems(prog, fn, g, n)
                 r.add(key, fn.loc(n), not problems, "ID CRC good and ID decoded on all paths" if not problems else
                       "the decoder starts waiting for a data record although " + " and ".join(problems) +
                       ": a damaged ID could address the next record")
@@ -177,6 +244,11 @@ def rule_crc_gating(prog, fixture=False):
                 if fs is None:
                     continue
                 in_rec = False
+                # the state variable may already have been set for the next round: what counts is the
+                # state this pass of the loop was entered with (tracked path-sensitively below)
+                sts = _iteration_states(fn, g, did, init, assigns).before(n)
+                if sts and all(start == REC for (start, now) in sts):
+                    in_rec = True
                 for k in fs:
                     if k[0] == "S" and k[1] == "d%s" % did and k[2] == REC:
                         in_rec = True
@@ -213,46 +285,8 @@ def rule_crc_gating(prog, fixture=False):
                 r.add(key, fn.loc(n), not problems, "record-wanted and data CRC good" if not problems else
                       "a sector is yielded although " + " and ".join(problems))
             # (iii) the ID is consumed: iteration that starts record-wanted ends header-wanted
-            loop_conds = set()
-            for n in fn.walk():
-                if n.get("k") == "WhileStmt":
-                    # the outer decoder loop: contains assignments to state
-                    if any(a[0]["i"] in set(x["i"] for x in walk(n)) for a in assigns):
-                        c = n["c"][n["parts"]["cond"]]
-                        loop_conds.add(strip(c)["i"])
-                        loop_conds.add(c["i"])
-            svk = "d%s" % did
-
-            def elem_tf(n, t):
-                start, now = t
-                if n["i"] in loop_conds:
-                    return (now, now)
-                if n.get("k") == "BinaryOperator" and n.get("op") == "=" and strip_all(n["c"][0]).get("d") == did:
-                    v = folded(n["c"][1])
-                    return (start, v if v is not None else "?")
-                return t
-
-            def edge_tf(facts_, t):
-                start, now = t
-                for k in facts_:
-                    if k[0] == "S" and k[1] == svk and k[2] != "default":
-                        if now not in ("?", k[2]):
-                            return None
-                        now = k[2]
-                        if start == "?":
-                            start = now
-                    if k[0] == "C" and svk in (k[1], k[3]):
-                        other = k[3] if k[1] == svk else k[1]
-                        if other.startswith("#"):
-                            v = int(other[1:])
-                            if k[2] == "==":
-                                if now not in ("?", v):
-                                    return None
-                                now = v
-                            elif k[2] == "!=" and now == v:
-                                return None
-                return (start, now)
-            ps = PathStates(fn, (init, init), elem_tf, edge_tf, guards=g)
+            ps = _iteration_states(fn, g, did, init, assigns)
+            loop_conds = ps.loop_conds
             bad = False
             for cid in loop_conds:
                 n = fn.nodes.get(cid)
@@ -349,7 +383,7 @@ def rule_address_lookup(prog, fixture=False):
                             for c in walk(v["c"][0]):
                                 if is_call(c) and c.get("fn"):
                                     for t in prog.call_targets(fn, c):
-                                        if _helper_compares_address(t):
+                                        if _helper_compares_address(t, prog):
                                             ok, why = True, "found by %s, which compares addresses" % t.qn
             r.add(key + "::copy", fn.loc(n), ok, why if ok else
                   "the sector returned is not selected by its recorded address (e.g. taken by ordinal position): when "
@@ -526,12 +560,27 @@ def rule_track_checks_unconditional(prog, fixture=False, rule_id="R-C06-6"):
     return r
 
 
-def _helper_compares_address(f):
+def _helper_compares_address(f, prog=None):
+    """The helper selects by address: an `if` on an address comparison, or a standard search
+    algorithm whose predicate (a lambda inside the helper) compares addresses."""
     for n in f.walk():
         if n.get("k") == "IfStmt":
             cond = n["c"][n["parts"]["cond"]]
             if any(x.get("k") == "MemberExpr" and x.get("n") == "address" for x in walk(cond)):
                 return True
+    if prog is not None:
+        uses_search = any(n.get("k") == "CallExpr" and notpl(n.get("q") or "") in
+                          ("std::find_if", "std::find_if_not", "std::any_of", "std::lower_bound", "std::partition_point")
+                          for n in f.walk())
+        if uses_search:
+            for lam in prog.lambdas_in(f):
+                for n in lam.walk():
+                    if n.get("k") == "ReturnStmt" and n.get("c"):
+                        e = n["c"][0]
+                        cmp_ = any((x.get("k") == "CXXOperatorCallExpr" and x.get("op") == "==") or
+                                   (x.get("k") == "BinaryOperator" and x.get("op") == "==") for x in walk(e))
+                        if cmp_ and any(x.get("k") == "MemberExpr" and x.get("n") == "address" for x in walk(e)):
+                            return True
     return False
 
 
